@@ -94,6 +94,11 @@ def run_case(case):
                     "detail": "system equality rows %s involve node states but are not gap-closing rows" % rep[:5]})
                 break
         else:
+            amp = ref.amplification()
+            if amp > 1e5:
+                res["counters"]["discarded_points"] = res["counters"].get("discarded_points", 0) + 1
+                continue
+            sstol = max(1e-9, 1e-13 * amp)
             Xref = ref.ss_states()
             worst = 0.0
             for s in ref.states:
@@ -103,7 +108,7 @@ def run_case(case):
                     worst = max(worst, d)
                     res["evals"] += 1
                     res["counters"]["ss_states"] += 1
-            if not np.isfinite(worst) or worst > 1e-9 * (1 + scale):
+            if not np.isfinite(worst) or worst > sstol * (1 + scale):
                 res["violations"].append({
                     "kind": "ss-recursion-mismatch", "mech": "C01|ss-recursion-mismatch",
                     "detail": "point %d: SingleShooting state read-back differs from M-step recursion by %.3g" % (
